@@ -945,6 +945,12 @@ func c11(r *Report) {
 		if emit := r.Use("h2", "outputBuffer.emitEligibleFrames"); emit != nil {
 			windowFitRules(r, emit)
 		}
+		// ... and on the source getting its credit back for every DATA frame, END_STREAM frames
+		// included (a connection whose credit leaks away stalls, and later messages never arrive)
+		if swu := r.Use("h2", "relay.sendWindowUpdates"); swu != nil {
+			creditOnAllPathsRule(r, swu)
+		}
+		processorChainRule(r)
 		// at the bottom of the reassembly loop, returning on an empty buffer must be excluded for the state
 		// "prefix read, length 0": the wait-for-more return must be control dependent on a.length / a.state
 		g := G(ad)
@@ -979,6 +985,7 @@ func c11(r *Report) {
 		// the wait-for-more decision at the bottom of the loop, as a truth table: the adapter
 		// returns to wait exactly when the buffer is empty and it is not sitting on a complete
 		// zero-length message
+		tableHolds := false
 		{
 			var lenTests []*ssa.BinOp
 			for _, in := range instrs(ad) {
@@ -1054,6 +1061,7 @@ func c11(r *Report) {
 					}
 				}
 			}
+			tableHolds = okTable
 			r.Decide("path", "(*M/h2/grpc.adapter).Data: the adapter waits for more bytes exactly when the buffer is empty and no zero-length message is pending", okTable, "truth table over buffer length {0,1,7} x state x pending length evaluates to: return iff empty and not (reading data and length 0)", "the wait-for-more test at the bottom of the reassembly loop has another truth table: complete messages already in the buffer are not delivered (the adapter returns although bytes remain), or it spins / waits with a zero-length message pending", ad.Pos())
 		}
 		// the last message of a frame that ends the stream carries the end-of-stream mark, and
@@ -1097,7 +1105,9 @@ func c11(r *Report) {
 			}
 			r.Decide("flow", "(*M/h2/grpc.adapter).isEnabled: true for a set mark, false for a clear one", okE, "the comparison holds for 1 and not for 0", "isEnabled is true for a clear mark: every stream, gRPC or not, is parsed as gRPC", ie.Pos())
 		}
-		r.Decide("path", "(*M/h2/grpc.adapter).Data: a zero-length message is delivered without waiting for more bytes", ok, "the empty-buffer return is bypassed when the pending message has length 0", "after reading the prefix of a zero-length message the adapter waits for more data: the message (and an END_STREAM on that frame) is never delivered", ad.Pos())
+		// (the control-dependence form of this rule is kept as a second witness; the truth table above
+		// decides when the test is written in another equivalent form)
+		r.Decide("path", "(*M/h2/grpc.adapter).Data: a zero-length message is delivered without waiting for more bytes", ok || tableHolds, "the empty-buffer return is bypassed when the pending message has length 0", "after reading the prefix of a zero-length message the adapter waits for more data: the message (and an END_STREAM on that frame) is never delivered", ad.Pos())
 	})
 }
 
@@ -1163,4 +1173,44 @@ func ctrlEdges(b *ssa.BasicBlock) []ctrlEdge {
 func isExtractOfCall(v ssa.Value, name string) bool {
 	e, ok := v.(*ssa.Extract)
 	return ok && isCallValue(e.Tuple, name)
+}
+
+// processorChainRule: when a stream processor factory returns nil for a
+// direction, that direction is served by the next inner layer of the chain
+// (the Processors value handed to the factory), not by the relay itself: the
+// receiver of the ForDirection fallback is the factory call's own argument.
+// Otherwise every inner processor (the gRPC reassembly among them) is shown
+// nothing in that direction. Shared by C11.R5 and C08.R2.
+func processorChainRule(r *Report) {
+	px := r.W.Fn("h2", "Config.Proxy")
+	if px == nil || px.Blocks == nil {
+		r.Undecided("M/h2.Config.Proxy", "UNRESOLVED")
+		return
+	}
+	n := 0
+	for _, f := range px.AnonFuncs {
+		fds := calls(f, "(*M/h2.Processors).ForDirection")
+		if len(fds) == 0 {
+			continue
+		}
+		r.Touch(f)
+		// the factory call: a dynamic call whose last argument is a *Processors
+		var factoryArg ssa.Value
+		for _, c := range calls(f) {
+			cc := c.Common()
+			if cc.IsInvoke() || cc.StaticCallee() != nil || len(cc.Args) == 0 {
+				continue
+			}
+			last := cc.Args[len(cc.Args)-1]
+			if strings.HasSuffix(last.Type().String(), "h2.Processors") {
+				factoryArg = last
+			}
+		}
+		for _, c := range fds {
+			n++
+			ok := factoryArg != nil && (c.Common().Args[0] == factoryArg || sameAs(c.Common().Args[0], factoryArg))
+			r.Decide("flow", "(*M/h2.Config).Proxy: "+site(f, c)+" falls back to the layer the factory was given", ok, "the receiver of ForDirection is the Processors value passed to the factory", "a direction for which a factory returns no processor is connected to the relay itself instead of the next inner layer: every processor further in (the gRPC reassembly) is shown no message and no end of stream in that direction", c.Pos())
+		}
+	}
+	r.Decide("flow", "(*M/h2.Config).Proxy chains the stream processors", n >= 2, fmt.Sprintf("%d ForDirection fallbacks", n), "the nil-processor fallbacks were not found", px.Pos())
 }
